@@ -121,17 +121,20 @@ theorem vals_spec {P : Nat} {c0 : Candle ℚ} {H : List (Candle ℚ)} {s : MFI} 
     rw [← hnm]; exact sum_nonneg_map _ _ (fun p hp => (hnn p (List.mem_of_mem_drop hp)).2)
   set p' := s.pmf + ((MFI.tfunc k s.prev_candle).1 - (MFI.tfunc old s.last_prev_candle).1) with hp'
   set n' := s.nmf + ((MFI.tfunc k s.prev_candle).2 - (MFI.tfunc old s.last_prev_candle).2) with hn'
-  have hval : (VExp.quot p' (p' + n') (s.period : ℚ) (2 * (s.period : ℚ)) .vol [n'] (some half)).value =
+  have hr := mfi_range p' n' hp0 hn0
+  have hval : (VExp.cquot p' (p' + n') (s.period : ℚ) (2 * (s.period : ℚ)) .vol [n'] (some half) 0 1).value =
       (if n' = 0 then half else p' / (p' + n')) := by
-    unfold VExp.value
+    rw [cquot_value]
     by_cases hz : n' = 0
     · simp [hz]
     · have hsum : p' + n' ≠ 0 := by
         have : 0 < n' := lt_of_le_of_ne hn0 (Ne.symm hz)
         linarith
-      simp [hz, hsum]
-  have hr := mfi_range p' n' hp0 hn0
-  refine ⟨.quot p' (p' + n') (s.period : ℚ) (2 * (s.period : ℚ)) .vol [n'] (some half),
+      have hr' := hr
+      simp only [hz, if_false] at hr'
+      rw [if_neg (by simp [hsum, hz]), if_neg hz]
+      exact qclamp_of_mem hr'.1 hr'.2
+  refine ⟨.cquot p' (p' + n') (s.period : ℚ) (2 * (s.period : ℚ)) .vol [n'] (some half) 0 1,
     { s with window := w', last_prev_candle := old, prev_candle := k, pmf := p', nmf := n' }, ?_,
     ⟨h.pos, ht', (lastC_snoc c0 H k).symm, ?_, hpm.symm, hnm.symm, hnn⟩, rfl, hp0, hn0, hval, ?_, ?_⟩
   · simp only [MFI.vals, hp, bind, Except.bind, pure, Except.pure]
